@@ -996,6 +996,23 @@ func (g *FuncGen) trCall(env *Env, x *ECall) Val {
 			return Val{T: fmt.Sprintf("(%s %s %s)", op, s.T, t.T), S: SBool, GT: types.Typ[types.Bool]}
 		}
 		return Val{T: fmt.Sprintf("(%s %s %s)", op, t.T, s.T), S: SBool, GT: types.Typ[types.Bool]}
+	case "addrof":
+		// addrof(V): the address of package-level variable V (what &V denotes in the code)
+		id, ok := x.Args[0].(*EIdent)
+		if !ok {
+			g.unsup("addrof needs the name of a package-level variable")
+		}
+		pkgs := []*types.Package{env.pkg, g.pkg}
+		for _, p := range pkgs {
+			if p == nil {
+				continue
+			}
+			if gv, ok := p.Scope().Lookup(id.Name).(*types.Var); ok {
+				ref := c.constant("glob_"+sanitize(p.Name()+"."+id.Name), SInt)
+				return Val{T: ref, S: SInt, GT: types.NewPointer(gv.Type())}
+			}
+		}
+		g.unsup("addrof(%s): no such package-level variable (stale-contract?)", id.Name)
 	case "textOf":
 		// textOf(b): the string spelled by byte slice b in the current state (what string(b) would return)
 		a := g.tr(env, x.Args[0])
